@@ -30,7 +30,9 @@
      (ii')  for every low witness q such that every segment and isolated point of A and B passes exactly through q or is
             farther than tol from q, with boolop op (mem A q) (mem B q) = true: q is within tol of R
             (the Boolean combination is contained in the result up to the tolerance; results are closed sets, so the
-            converse is claimed only through (ii) and (iii))
+            converse is claimed only through (ii), (ii'') and (iii))
+     (ii'') for every stable sample of an input sub-edge with boolop op (mem A q) (mem B q) = false: no linear or point part
+            of R within tol/2 of q
      (iii)  every segment of a linear component of R has both ends within tol of ONE segment of the inputs, every point
             component of R is within tol of a segment or isolated point of the inputs, and every vertex of a linear or
             point component of R satisfies the tolerant membership the operation requires (within tol of A and of B for
@@ -157,9 +159,12 @@ Definition seg_pars (a b : pt) (t : seg) : list par :=
   | STouch p => [par_of_pt a b p]
   | SOverlap p q => [par_of_pt a b p; par_of_pt a b q]
   end.
+(* a parameter of the closed segment: 0 <= n/m <= 1 (every parameter computed above is one; the filter makes that a fact
+   that needs no geometry to be proved) *)
+Definition par_ok (t : par) : bool := (0 <? snd t) && (0 <=? fst t) && (fst t <=? snd t).
 Definition node_pars (a b : pt) (ss : list seg) (ps : list pt) : list par :=
-  par_sort ((0, 1) :: (1, 1) :: flat_map (seg_pars a b) ss
-            ++ flat_map (fun p => if on_seg p a b then [par_of_pt a b p] else []) ps).
+  par_sort (filter par_ok ((0, 1) :: (1, 1) :: flat_map (seg_pars a b) ss
+                           ++ flat_map (fun p => if on_seg p a b then [par_of_pt a b p] else []) ps)).
 Fixpoint consec {X} (l : list X) : list (X * X) :=
   match l with
   | a :: t => match t with b :: _ => (a, b) :: consec t | [] => [] end
@@ -230,6 +235,13 @@ Definition low_bad (p : params) (o : ovop) (A B R : geom) (q : hpt) : bool :=
   stable_inputs p A B q && expected o A B q && negb (near_geom (p_tn p) (p_td p) R q).
 Definition bad_lows (p : params) (o : ovop) (A B R : geom) : list hpt :=
   filter (low_bad p o A B R) (low_witnesses p A B R).
+(* (ii'') the converse on lower-dimension parts: a stable sample of an input sub-edge that is NOT in the Boolean combination
+   (then the whole node-free sub-edge is not) has no LINEAR or POINT part of R within tol/2.  (Areas of R may contain it:
+   results are closed; tol/2 leaves room for the rounding of result parts that belong to segments just beyond tol.) *)
+Definition low_bad2 (p : params) (o : ovop) (A B R : geom) (q : hpt) : bool :=
+  stable_inputs p A B q && negb (expected o A B q) && near_lines (p_tn p) (2 * p_td p) (line_segs R) (lone_pts R) q.
+Definition bad_lows2 (p : params) (o : ovop) (A B R : geom) : list hpt :=
+  filter (low_bad2 p o A B R) (map snd (sample_witnesses p A B R)).
 
 (* ------------------------------------------------------------------ clause (iii) *)
 Definition tol_member (p : params) (o : ovop) (A B : geom) (q : hpt) : bool :=
@@ -246,7 +258,9 @@ Definition bad_low_segs (p : params) (A B R : geom) : list seg :=
 Definition bad_low_pts (p : params) (o : ovop) (A B R : geom) : list pt :=
   filter (fun c => negb (near_lines (p_tn p) (p_td p) (geom_segs A ++ geom_segs B) (lone_pts A ++ lone_pts B) (hp c)))
          (lone_pts R)
-  ++ filter (fun c => negb (tol_member p o A B (hp c))) (flat_map (fun l => l) (lines_of R) ++ points_of R).
+  ++ filter (fun c => negb (tol_member p o A B (hp c))) (flat_map (fun l => l) (lines_of R) ++ points_of R)
+  (* an isolated point of the result whose memberships are stable is in the Boolean combination exactly *)
+  ++ filter (fun c => stable_inputs p A B (hp c) && negb (expected o A B (hp c))) (lone_pts R).
 
 (* ------------------------------------------------------------------ clause (iv) *)
 (* Geometry::getDimension of the declared type; a collection takes the maximum over its elements (-1 when it has none) *)
@@ -311,13 +325,13 @@ Definition overlay_verdict (unary : bool) (p : params) (o : ovop) (A B R : geom)
   let sw := side_witnesses p A B R in
   let lw := low_witnesses p A B R in
   mkVerdict (valid_geom R) (if unary then shape_unary A R else shape_ok o A B R)
-            (filter (side_bad p o A B R) sw) (filter (low_bad p o A B R) lw)
+            (filter (side_bad p o A B R) sw) (filter (low_bad p o A B R) lw ++ bad_lows2 p o A B R)
             (bad_low_segs p A B R) (bad_low_pts p o A B R)
             (Z.of_nat (length sw)) (count (far_inputs p A B) sw) (Z.of_nat (length lw))
             (count (fun q => stable_inputs p A B q && expected o A B q) lw).
 Definition overlay_check_with (shape : bool) (p : params) (o : ovop) (A B R : geom) : bool :=
   params_ok p && valid_geom R && shape
-  && isnil (bad_sides p o A B R) && isnil (bad_lows p o A B R)
+  && isnil (bad_sides p o A B R) && isnil (bad_lows p o A B R) && isnil (bad_lows2 p o A B R)
   && isnil (bad_low_segs p A B R) && isnil (bad_low_pts p o A B R).
 Definition overlay_check (p : params) (o : ovop) (A B R : geom) : bool :=
   overlay_check_with (shape_ok o A B R) p o A B R.
